@@ -478,22 +478,28 @@ Proof.
   destruct (N.land d3 128 =? 0); reflexivity.
 Qed.
 
-(* take_from_if in terms of peek_tag, on fault-free unlimited states *)
-Lemma tag_take_from_if_peek e d :
-  tag_take_from_if e (pure_src d None) =
-    match peek_tag d with
-    | None => (Ok None, pure_src d None)
-    | Some None => (CErr, pure_src d None)
+(* take_from_if in terms of peek_tag, on every fault-free state (any limit) *)
+Lemma visible_len s : len (visible s) <= len (rem s) /\ lim_ge (lim s) (len (visible s)).
+Proof.
+  unfold visible. destruct (lim s) as [l|]; cbn [lim_ge]; [|split; [lia|trivial]].
+  unfold firstN, len. rewrite firstn_length. split; lia.
+Qed.
+
+Lemma tag_take_from_if_peek_gen e s : flt s = None ->
+  tag_take_from_if e s =
+    match peek_tag (visible s) with
+    | None => (Ok None, s)
+    | Some None => (CErr, s)
     | Some (Some (t, c, k)) =>
-        if tag_eqb t e then (Ok (Some c), pure_src (skipN k d) None)
-        else (Ok None, pure_src d None)
+        if tag_eqb t e then (Ok (Some c), mkSrc (skipN k (rem s)) (lim_sub (lim s) k) None)
+        else (Ok None, s)
     end.
 Proof.
-  unfold tag_take_from_if, pure_src.
-  rewrite (bind_ok tick _ _ tt (mkSrc d None None)) by reflexivity.
-  rewrite (bind_ok get _ _ (mkSrc d None None) (mkSrc d None None)) by reflexivity.
-  unfold visible. cbn [lim rem].
-  destruct d as [|b v1]; [reflexivity|].
+  intro Hf. destruct s as [d l f]. cbn in Hf. subst f.
+  unfold tag_take_from_if.
+  rewrite (bind_ok tick _ _ tt (mkSrc d l None)) by reflexivity.
+  rewrite (bind_ok get_visible _ _ (visible (mkSrc d l None)) (mkSrc d l None)) by reflexivity.
+  destruct (visible (mkSrc d l None)) as [|b v1] eqn:V; [reflexivity|].
   unfold bind at 1. rewrite tag_peek_spec by reflexivity.
   destruct (peek_tag (b :: v1)) as [[[[t c] k]|]|] eqn:P; [|reflexivity|].
   - destruct (peek_tag_len _ t c k P) as (Hk & Hle & _).
@@ -504,12 +510,39 @@ Proof.
         destruct v3 as [|d3 v4]; [discriminate|]. destruct (N.land d3 128 =? 0); [congruence|discriminate].
       - congruence. }
     destruct (tag_eqb t e); [|reflexivity].
+    pose proof (visible_len (mkSrc d l None)) as [V1 V2]. rewrite V in V1, V2. cbn [rem lim] in V1, V2.
     unfold bind, advance, ret. cbn [rem lim flt]. rewrite Hk.
-    replace (len (b :: v1) <? k) with false by lia. rewrite Hc. reflexivity.
+    replace (len d <? k) with false by lia. rewrite Hc.
+    destruct l as [x|]; cbn [lim_sub lim_ge] in *; [|reflexivity].
+    replace (x <? k) with false by lia. reflexivity.
   - unfold peek_tag in P. destruct (N.land (clear_cons b) 31 =? 31); [|discriminate].
     destruct v1 as [|d1 v2]; [discriminate|]. destruct (N.land d1 128 =? 0); [discriminate|].
     destruct v2 as [|d2 v3]; [discriminate|]. destruct (N.land d2 128 =? 0); [discriminate|].
     destruct v3 as [|d3 v4]; [discriminate|]. destruct (N.land d3 128 =? 0); discriminate.
+Qed.
+
+Lemma tag_take_from_if_peek e d :
+  tag_take_from_if e (pure_src d None) =
+    match peek_tag d with
+    | None => (Ok None, pure_src d None)
+    | Some None => (CErr, pure_src d None)
+    | Some (Some (t, c, k)) =>
+        if tag_eqb t e then (Ok (Some c), pure_src (skipN k d) None)
+        else (Ok None, pure_src d None)
+    end.
+Proof. apply (tag_take_from_if_peek_gen e (pure_src d None)). reflexivity. Qed.
+
+(* absence or error never touches the source, under any limit *)
+Theorem tag_take_from_if_untouched_gen e s r s' : flt s = None ->
+  tag_take_from_if e s = (r, s') -> (forall c, r <> Ok (Some c)) -> s' = s /\ (r = Ok None \/ r = CErr).
+Proof.
+  intro Hf. rewrite (tag_take_from_if_peek_gen e s Hf).
+  destruct (peek_tag (visible s)) as [[[[t c] k]|]|].
+  - destruct (tag_eqb t e).
+    + intros [= <- <-] H. exfalso. apply (H c). reflexivity.
+    + intros [= <- <-] _. split; [reflexivity|left; reflexivity].
+  - intros [= <- <-] _. split; [reflexivity|right; reflexivity].
+  - intros [= <- <-] _. split; [reflexivity|left; reflexivity].
 Qed.
 
 (* C12, conditional read: consumes the identifier exactly when it equals the
